@@ -12,11 +12,11 @@ def run(ctx):
     S = []
     def add(name, defines, args, tl, note, reach):
         S.append(dict(name=name, wrapper='w_tree.cpp', defines=defines, entry='h_c12', args=args, time_limit=tl, note=note, expect_reach=reach))
-    add('staged.d1.h4.n2', D(1, 4, 2, 1), [-2, -1, 0, -2, 0, 0], 200, 'all 112 call sequences x block size x mode x upper level', (170, 171, 172))
-    add('staged.d2.h3.n2', D(2, 3, 2, 1), [2, 0, 0, -1, 0, 0], 240, '', (170, 171, 172))
+    add('staged.d1.h4.n2', D(1, 4, 2, 1), [-2, -1, 0, -1, 0, 0], 200, 'all 112 call sequences x block size x mode x upper level', (170, 171, 172))
+    add('staged.d2.h3.n1', D(2, 3, 1, 1), [1, -1, 0, -2, 0, 0], 240, 'one particle, every leaf, every call sequence', (170, 171, 172))
     add('single.d1.h4.n3', D(1, 4, 3, 1), [-3, -1, 1, -2, 0, 0], 200, 'each of the six flags alone', (173,))
-    add('single.d3.h3.n2', D(3, 3, 2, 1), [2, -1, 1, -1, 0, 0], 240, '', (173,))
-    add('upper.d1.h5.n3', D(1, 5, 3, 1), [-3, -1, 2, -1, 0, 0], 200, 'upper working level 0..5', (177, 178))
+    add('single.d3.h3.n2', D(3, 3, 2, 1), [2, 0, 1, -1, 0, 0], 240, '', (173,))
+    add('upper.d1.h5.n3', D(1, 5, 3, 1), [-2, -1, 2, -1, 0, 0], 200, 'upper working level 0..5', (177, 178))
     add('upper.d2.h3.n2', D(2, 3, 2, 1), [-2, -1, 2, -1, 0, 0], 200, '', (177, 178))
     if not q:
         add('staged.d1.h5.n3', D(1, 5, 3, 1), [-3, -1, 0, -2, 0, 0], 2400, '', (170,))
